@@ -12,6 +12,7 @@ def run(rep, tier, seed, rng):
     for k in range(nproj):
         f, c = pool[k] if k < len(pool) else genproj.gen_project(rng, focus=rng.choice([None, "build"]))
         c = {x: v for x, v in c.items() if x not in ("builders", "apps")}
+        f, tnames = mcn.with_scripted_tasks(f, rng, force=(k % 3 == 0))
         bl = sorted({b["name"] for ds in f.values() for d in ds for b in (d.get("builders") or [])})
         al = sorted({a["name"] for ds in f.values() for d in ds for a in (d.get("apps") or []) if a.get("name")})
         if not bl or not al: continue
@@ -33,6 +34,11 @@ def run(rep, tier, seed, rng):
             steps.append((dict(c, **sel()), flags()))
         if rng.random() < 0.3:
             steps.append((dict(c, **sel()), dict(flags(), generate_only=True)))
+        if tnames:
+            # `laze build -G <task>`: generate only means no ninja, also on the task path (the task itself still runs)
+            t = rng.choice(tnames)
+            steps.append((dict(c, **sel()), dict(flags(), task=t, multiple=True, generate_only=True, keep_going=0)))
+            steps.append((dict(c, **sel()), dict(flags(), task=t, multiple=True, keep_going=0)))
         items.append((f, steps))
     results = mcn.run_scenarios(laze, driver, items)
     distinct = set(); nhit = 0; ndis = 0
